@@ -431,9 +431,9 @@ register('C14', corr=trace_corr('its', 'itscases', ITS_N, its_rel({'registerCano
          assumptions=['injectivity of the derivations is stated on preimages; at hash level it needs collision freedom of keccak-256'])
 register('C17', corr=trace_corr('its', 'itscases', ITS_N, its_rel({'registerMetadata', 'deployRemote', 'deployRemoteCanonical', 'props', 'linkToken'}, 29), ITS_RULE, its_nontrivial, monitor=_itsmon),
          assumptions=['the ESDT system contract lookup is abstracted to its result (success with name/type/decimals, or error)'])
-register('C18', corr=trace_corr('its', 'itscases', ITS_N, its_rel({'deployToken', 'execute', 'issue'}, 27), ITS_RULE, its_nontrivial, monitor=_itsmon),
+register('C18', corr=trace_corr('its', 'itscases', ITS_N, its_rel({'deployToken', 'execute', 'issue', 'tm'}, 27), ITS_RULE, its_nontrivial, monitor=_itsmon),
          assumptions=['the ESDT issuance is abstracted to its result (token identifier or error); the issue cost is consumed on success'])
-register('C19', corr=trace_corr('its', 'itscases', ITS_N, its_rel({'approveRemote', 'revokeRemote', 'deployRemote'}, 11), ITS_RULE, its_nontrivial, monitor=_itsmon),
+register('C19', corr=trace_corr('its', 'itscases', ITS_N, its_rel({'approveRemote', 'revokeRemote', 'deployRemote', 'tm'}, 11), ITS_RULE, its_nontrivial, monitor=_itsmon),
          assumptions=['approval keys: collision freedom of keccak-256 is needed to go from preimages to keys'])
 register('C20', corr=trace_corr('its', 'itscases', ITS_N, its_rel(None, 25), ITS_RULE, its_nontrivial, monitor=_itsmon),
          assumptions=['metadata registration, minter approvals, role / flow-limit / trusted-address management and views are not pause-gated, following the property text'])
